@@ -284,6 +284,9 @@ def narrow(ctx):
                     if re.search(r"duration_since|checked_add|checked_sub|checked_mul|try_from|try_into", a):
                         n += 1
                         res.fail(Finding("R-NARROW", "R-NARROW/%s/unwrap-of-fallible-time-op" % f.path, "unwrap() of %s panics for out-of-range times" % a[:80], f, t["span"]))
+                if re.match(r"^(wrapping_|overflowing_|unchecked_)(add|sub|mul|neg|shl|shr)$", short):
+                    n += 1
+                    res.fail(Finding("R-NARROW", "R-NARROW/%s/wrapping-arithmetic/%s" % (f.path, short), "%s in the time conversion wraps around instead of saturating: a time outside 1601..60056 is stored as an unrelated instant" % short, f, t["span"]))
                 if short in ("saturating_add", "saturating_sub", "saturating_mul", "checked_add", "checked_sub", "unwrap_or", "duration_since"):
                     n += 1
                     res.ok({"function": f.path, "total_operation": short})
@@ -331,6 +334,11 @@ def noerrafter(pid):
                     adv.append((node, "store to %s (line %d)" % (fld, f.blocks[node[1]]["stmts"][node[2]]["span"]["line"])))
             n += 1
             errs = set(v.all_err_nodes())
+            # a fallible call whose Result is handed back as this function's own result is an error exit too
+            for bb_, c_ in v.calls.items():
+                t_ = c_.term
+                if not t_["dest"]["proj"] and t_["dest"]["local"] == 0 and "Result" in f.locals[0]["s"] and not _re.search(r"::(Ok|Err)$|from_residual$|from_output$", c_.name):
+                    errs.add(("t", bb_))
             bad = None
             for node, what in adv:
                 after = v.pg.reach_after(node)
